@@ -161,7 +161,7 @@ where
         .sum::<usize>() as f64;
     let contri = tads
         .iter()
-        .map(|item| item.degree * (item.degree - 1))
+        .map(|item| item.degree * item.degree.saturating_sub(1))
         .sum::<usize>() as f64;
     match triangles == 0.0 {
         true => Ok(0.0),
